@@ -24,7 +24,7 @@ pub fn def() -> CheckDef {
         runs_quick: 250_000,
         runs_thorough: 5_000_000,
         rule: "seeded interleavings: history h1 on an instance, clone at a seeded point (mid-block for byte-level types), then operations on original and clone interleaved operation by operation by the scheduler; or two unrelated instances (different key/IV) interleaved; compared with sequential replays on fresh instances. All cloneable public types (12 block-mode types, 7 byte-stream aliases and cores, BufEncryptor/BufDecryptor); BeltCtr/BeltCtrCore (not Clone) only as unrelated instances. distinct = distinct (type, block size, cipher, width, clone point, interleaving pattern, op forms); non-trivial = >= 1 data op on each actor after the clone",
-        required_probes: &["clone_mid_block", "ctr_core_clone", "three_alternations", "unrelated_instances", "buf_clone", "belt_unrelated"],
+        required_probes: &["clone_mid_block", "ctr_core_clone", "three_alternations", "unrelated_instances", "buf_clone", "belt_unrelated", "cts_clone"],
         r#gen,
         exec,
         components: "real code: all stateful public types of the nine crates incl. their Clone impls (CtrCore's is hand-written); stub: block cipher in most runs, real ciphers in the rest; scheduler: the op list itself (call-granular interleaving is the whole space: every mutating method takes &mut self and the crates forbid unsafe); no reference model",
@@ -33,6 +33,19 @@ pub fn def() -> CheckDef {
 }
 
 fn r#gen(rng: &mut Rng, thorough: bool) -> Scn {
+    if rng.chance(1, 12) {
+        // the one-shot cts types are Clone too: clone, then use both, in either order
+        let mode = *rng.pick(&crate::factory::CTS_MODES);
+        let pool = 64 + rng.usize(400);
+        let mut s = base_scn(rng, "C16", mode, true, 1, pool);
+        let w = *rng.pick(&WIDTHS);
+        s.pol = vec![Policy::Fixed(w)];
+        s.set_num("fam", 4);
+        let bs = s.bs as u64;
+        s.ops.push(Op::new("cts").who(0).n(bs + rng.nbytes(8 * bs, bs)).via(rng.below(4) as u8).ty(rng.below(2) as u8));
+        s.ops.push(Op::new("cts").who(1).n(bs + rng.nbytes(8 * bs, bs)).m(rng.below(2)));
+        return s;
+    }
     let fam = pick_fam(rng);
     let mode = *rng.pick(fam_modes(fam));
     let pool = 64 + rng.usize(400);
@@ -81,6 +94,9 @@ fn exec(scn: &Scn, ctx: &mut Ctx) -> Verdict {
     env_setup(&s2, false);
     sig_base(ctx, &s2);
     let fam = scn.num("fam") as u8;
+    if fam == 4 {
+        return exec_cts(scn, ctx);
+    }
     if fam > 3 || !fam_modes(fam).contains(&scn.mode.as_str()) {
         invalid!("mode");
     }
@@ -211,6 +227,47 @@ fn exec(scn: &Scn, ctx: &mut Ctx) -> Verdict {
         if &r.snapshot() != want {
             violation!(if actor == 0 { "original_state" } else { "clone_state" }, "final observable state of actor {} differs from its sequential replay", actor);
         }
+    }
+    Verdict::Ok
+}
+
+/// cts: original and clone are each consumed by one call; both must equal fresh instances
+fn exec_cts(scn: &Scn, ctx: &mut Ctx) -> Verdict {
+    use crate::factory::{cts_clone_pair, cts_run};
+    let bs = scn.bs;
+    let (o0, o1) = match (scn.ops.first(), scn.ops.get(1)) {
+        (Some(a), Some(b)) if a.k == "cts" && b.k == "cts" => (a, b),
+        _ => invalid!("ops"),
+    };
+    let (na, nb) = (o0.n as usize, o1.n as usize);
+    if na < bs || nb < bs || na > 1 << 14 || nb > 1 << 14 {
+        invalid!("len");
+    }
+    let dec = o0.ty % 2 == 1;
+    let form = o0.via % 4;
+    let clone_first = o1.m % 2 == 1;
+    ctx.sig.u(4 << 32 | (dec as u64) << 16 | (form as u64) << 8 | clone_first as u64);
+    ctx.probe("cts_clone");
+    ctx.nontrivial = true;
+    let (a, b) = (scn.bytes(0, na), scn.bytes(na + 7, nb));
+    let (mut oa, mut ob) = (scn.dirt(0, na), scn.dirt(1, nb));
+    let (ro, rc) = match cts_clone_pair(&scn.mode, bs, scn.cipher, &scn.key, &scn.iv, 0, dec, form, &a, &mut oa, &b, &mut ob, clone_first) {
+        Ok(x) => x,
+        Err(MkErr::Unsupported) => invalid!("unsupported"),
+        Err(_) => violation!("construct", "rejected"),
+    };
+    let (mut fa, mut fb) = (scn.dirt(0, na), scn.dirt(1, nb));
+    let r1 = cts_run(&scn.mode, bs, scn.cipher, &scn.key, &scn.iv, 1, 0, dec, form, &a, &mut fa);
+    let r2 = cts_run(&scn.mode, bs, scn.cipher, &scn.key, &scn.iv, 2, 0, dec, form, &b, &mut fb);
+    if r1 != Ok(ro) || r2 != Ok(rc) {
+        violation!("clone_differs", "{}: results differ between cloned and fresh objects: {:?}/{:?} vs {:?}/{:?}", scn.mode, ro, rc, r1, r2);
+    }
+    ctx.fp.bytes(&oa);
+    if oa != fa {
+        violation!("original_affected", "{}: the original (used {} its clone) differs from a fresh object at byte {}", scn.mode, if clone_first { "after" } else { "before" }, first_diff(&oa, &fa));
+    }
+    if ob != fb {
+        violation!("clone_differs", "{}: the clone differs from a fresh object at byte {}", scn.mode, first_diff(&ob, &fb));
     }
     Verdict::Ok
 }
